@@ -5,7 +5,7 @@
    latest value of every query seen so far and compares ALL of them with the model after
    every operation, so a model change the implementation did not make is noticed too. *)
 From MC Require Import lib.Prelude lib.AMap lib.CheckLib model.Bank model.Stream model.Registry
-  model.Enterprise model.App.
+  model.Enterprise model.App model.Genesis.
 
 Inductive oval := VZ (z : Z) | VS (s : string) | VL (l : list string) | VNone.
 
@@ -141,7 +141,9 @@ Definition res_class (r : tx_result) : Z :=
   | TxPanicked _ _ => 2
   end.
 
-Record titem := { ti_op : op; ti_res : option Z; ti_obs : list (qry * oval) }.
+(* ti_reimport: before this operation the implementation was exported (ExportAppStateAndValidators) and a
+   fresh application was started from the exported document (InitChain); the model does the same *)
+Record titem := { ti_op : op; ti_res : option Z; ti_obs : list (qry * oval); ti_reimport : bool }.
 Record trace := { tr_genesis : app; tr_items : list titem }.
 
 Fixpoint upd_known (known : list (qry * oval)) (q : qry) (v : oval) : list (qry * oval) :=
@@ -162,6 +164,9 @@ Fixpoint check_items (i : nat) (n : node) (known : list (qry * oval)) (items : l
   match items with
   | [] => (i, [])
   | it :: rest =>
+      match (if ti_reimport it then reimport_node n else Some n) with
+      | None => (i, [CAT_HALT])
+      | Some n =>
       match node_step n (ti_op it) with
       | None => (i, [CAT_HALT])          (* the model says the chain halts here; the harness got further *)
       | Some (n', r) =>
@@ -177,6 +182,7 @@ Fixpoint check_items (i : nat) (n : node) (known : list (qry * oval)) (items : l
           | [] => check_items (S i) n' known' rest
           | bad => (i, bad)
           end
+      end
       end
   end.
 
